@@ -134,6 +134,7 @@ func runUnit(p *program, solver *interp.Solver, u Unit) (res UnitResult) {
 	}
 	x.SetCountFns(u.CountFns)
 	interp.Params = u.Params
+	interp.SetSummarise("CharIn", u.Params["nosummary_charin"] == "")
 	setup := p.fn(pkgPath(u.Pkg), "VerifSetup_"+u.Harness)
 	check := p.fn(pkgPath(u.Pkg), "VerifCheck_"+u.Harness)
 	if check == nil {
